@@ -7,7 +7,7 @@
    Racy = TRUE replaces LoadOrStore by Load-then-Store (a check-then-act lookup): kept as a named deviation so that TLC
    shows what the atomic lookup is for (two goroutines using a never-seen key get two different mutexes). *)
 EXTENDS Integers, FiniteSets, TLC
-CONSTANTS Threads, Keys, Kinds, Racy, MaxObj
+CONSTANTS Threads, Keys, Kinds, Racy, MaxObj, ClearMode   \* ClearMode: "never" | "quiet" (only when nobody holds or awaits the key) | "any"
 VARIABLES objOf, objs, nObj, pc, key, kind, my, holdsW, holdsR
 vars == <<objOf, objs, nObj, pc, key, kind, my, holdsW, holdsR>>
 Free == [w |-> 0, r |-> {}]
@@ -41,11 +41,19 @@ Acq(t) == /\ pc[t] = "acq"
           /\ pc' = [pc EXCEPT ![t] = "idle"] /\ UNCHANGED <<objOf, nObj, key, kind, my>>
 \* UnlockKey / RUnlockKey: look the object up again, release it
 Release(t, k) == /\ pc[t] = "idle" /\ k \in holdsW[t] \cup holdsR[t]
+                 /\ objOf[k] # 0          \* (after a ClearKey in "any" mode the real code would unlock a brand-new mutex: fatal error)
                  /\ LET o == objOf[k] IN
                     IF k \in holdsW[t] THEN objs' = [objs EXCEPT ![o].w = 0] /\ holdsW' = [holdsW EXCEPT ![t] = @ \ {k}] /\ UNCHANGED holdsR
                     ELSE objs' = [objs EXCEPT ![o].r = @ \ {t}] /\ holdsR' = [holdsR EXCEPT ![t] = @ \ {k}] /\ UNCHANGED holdsW
                  /\ UNCHANGED <<objOf, nObj, pc, key, kind, my>>
-Next == \E t \in Threads : Get(t) \/ LoadR(t) \/ StoreR(t) \/ Acq(t) \/ \E k \in Keys : Release(t, k) \/ \E kd \in Kinds : Start(t, k, kd)
+\* ClearKey(k) = Map.Delete(k): the key forgets its mutex object.  The property covers it only when no goroutine holds or
+\* awaits the key ("quiet"); ClearMode = "any" is the named hazard: LockKey; ClearKey; LockKey gives two holders of one key,
+\* and the first holder's UnlockKey then unlocks a fresh, unlocked mutex.
+Quiet(k) == \A t \in Threads : k \notin holdsW[t] \cup holdsR[t] /\ ~(pc[t] # "idle" /\ key[t] = k)
+ClearKey(k) == /\ ClearMode # "never" /\ (ClearMode = "quiet" => Quiet(k)) /\ objOf[k] # 0
+               /\ objOf' = [objOf EXCEPT ![k] = 0] /\ UNCHANGED <<objs, nObj, pc, key, kind, my, holdsW, holdsR>>
+Next == \/ \E t \in Threads : Get(t) \/ LoadR(t) \/ StoreR(t) \/ Acq(t) \/ \E k \in Keys : Release(t, k) \/ \E kd \in Kinds : Start(t, k, kd)
+        \/ \E k \in Keys : ClearKey(k)
 Spec == Init /\ [][Next]_vars
 \* "at most one goroutine is between LockKey(k) and UnlockKey(k), or any number between RLockKey(k) and RUnlockKey(k) with no writer inside"
 Exclusion == \A k \in Keys : LET W == {t \in Threads : k \in holdsW[t]}  R == {t \in Threads : k \in holdsR[t]} IN
